@@ -12,6 +12,7 @@ git -C /repo worktree remove --force $wt 2>/dev/null
 git -C /repo worktree add -q --detach $wt HEAD || exit 1
 grep -v '^#' /verif/tools/mutants.tsv | while IFS=$'\t' read -r id m place cmd; do
   [ "$filter" != "  " ] && [[ "$filter" != *" $id "* ]] && continue
+  [ -n "${VM_ONLY:-}" ] && [[ " $VM_ONLY " != *" $m "* ]] && continue
   src=$raw/mutout-$id/$m
   patch=$src/patch.diff; [ -f $src/patch.rebased.diff ] && patch=$src/patch.rebased.diff
   git -C $wt checkout -q -- . ; git -C $wt clean -fdq
